@@ -12,12 +12,23 @@
     plain/unique/primary;
   * `fk_walk_total` is trivial (the foreign-key walk is a total function).
 
-  Missing: that the reader never produces an inconsistent position map on a well-formed script (needs `Inv`), and the
+  * `load_never_panics` — **loading never panics**: from the empty model, any sequence of loads with any of the three
+    reader models returns, or fails with one of the listed non-panic errors (`benignErrors`: a text the dialect's
+    grammar rejects, or a construct the model declines and the correspondence reports as UNMODELLED).  No
+    index-out-of-range of the position bookkeeping is reachable (Proofs/NoPanic, Proofs/ReaderSafe: under the invariant
+    a position read from a map is a valid index; the invariant is preserved, Proofs/TableInv … ReaderPending).
+    Side condition: renames onto fresh names (see C05.load_keeps_inv).
+  * `primitives_total` — on a consistent table every edit primitive except `AddColumn` is total, and `AddColumn` can
+    only fail with `swapOrderUnmodelled`.
+
+  Missing: the emit side after `Diff` for arbitrary pairs (the nil-dereference in `hasChangedType` and the two emitter
+  sites above are reachable only from shapes outside the well-formed space), and the
   option-restore site for readers that build options without expression (SQLite/Postgres: a recorded finding).
   Panics inside the third-party parsers cannot be modelled; that clause is searched by the malformed stream, not proved.
 -/
 import SqlizeModel.Impl.Api
 import SqlizeModel.Spec.Scope
+import SqlizeModel.Proofs.ReaderPending
 
 namespace Sqlize.C09
 open Sqlize Sqlize.Spec
@@ -80,6 +91,25 @@ theorem index_up_total (g : Globals) (i : Index) (tb : String) (h : i.action = .
     · by_cases hpk : i.isPk = true
       · simp [hpk, bind, Except.bind, pure, Except.pure]
       · simp [hpk, hp, bind, Except.bind, pure, Except.pure]
+
+/-- loading never panics -/
+theorem load_never_panics (g : Globals) (calls : List (List Stmt)) (hf : CallsFresh g {} calls) :
+    NoPanic (readCalls g {} calls) :=
+  readCalls_noPanic g calls {} Migration.inv_empty hf
+
+theorem primitives_total (t : Table) (h : t.Inv) :
+    (∀ col mysql, Safe (t.addColumn col mysql)) ∧ (∀ n, ∃ t', t.removeColumn n = .ok t') ∧
+    (∀ o n, ∃ t', t.renameColumn o n = .ok t') ∧ (∀ i, ∃ t', t.addIndex i = .ok t') ∧
+    (∀ n, ∃ t', t.removeIndex n = .ok t') ∧ (∀ o n, ∃ t', t.renameIndex o n = .ok t') ∧
+    (∀ f, ∃ t', t.addForeignKey f = .ok t') ∧ (∀ n, ∃ t', t.removeForeignKey n = .ok t') :=
+  ⟨fun c my => Table.addColumn_safe t c my h, fun n => Table.removeColumn_total t n h,
+   fun o n => Table.renameColumn_total t o n h, fun i => Table.addIndex_total t i h,
+   fun n => Table.removeIndex_total t n h, fun o n => Table.renameIndex_total t o n h,
+   fun f => Table.addForeignKey_total t f h, fun n => Table.removeForeignKey_total t n h⟩
+
+-- non-vacuity: an inconsistent map does panic in the model (so the invariant is what keeps the sites unreachable)
+example : (({ name := "t", action := .add, colIdx := [("a", 3)] } : Table).removeColumn "a") =
+    .error "index out of range: removeColumn" := by rfl
 
 -- non-vacuity: the excluded shapes do fail in the model (they are the panic sites of the Go code)
 example : (Table.new "t" .add).migrationColumnUp {} = .error "index out of range: MigrationColumnUp: t.Columns[0]" := by rfl
